@@ -49,6 +49,12 @@ theorem apply_callbacks_never_fail :
     Facts.C01.applyPtsReturnsNilOnly = true ∧ Facts.C01.applyQtsReturnsNilOnly = true ∧
     Facts.C01.channelApplyPtsReturnsNilOnly = true := by decide
 
+/-- A batch handed to `internalState.applyPts` / `channelState.applyPts` may contain `affectedPts`
+markers (pts-only results of the client's own actions, `Manager.HandleAffected`); the statement that
+skips a marker in the conversion loop is `continue`, so the updates after it are still dispatched
+(regenerated from the AST; the per-sequence consequences are proved in Props/C02 and C03). -/
+theorem marker_skip_is_continue : Facts.C01.applyPtsSkip = 0 ∧ Facts.C01.chApplyPtsSkip = 0 := by decide
+
 /-- `applyPending`: the accepted batch is a chain from the box state to the new state, and what
 stays pending is empty or begins with an update still ahead of the new state. -/
 theorem applyPending_chain (state : Int) (pending : List Upd) :
